@@ -1133,6 +1133,103 @@ async fn conn_op(
                 m.insert("res".into(), json!("timeout"));
             }
         },
+        "accept_n_uni" | "accept_n_bi" => {
+            // accept up to `n` streams (stops at the first error or when `ms` runs out);
+            // `cancel_ms`: every pending accept is dropped after that long and reissued;
+            // each accepted stream's first 8 bytes are read and logged
+            let n = u(&step, "n", 1);
+            let delay = u(&step, "delay_ms", 0);
+            let cancel = step.get("cancel_ms").and_then(|v| v.as_u64());
+            let deadline = tokio::time::Instant::now() + dl;
+            let mut got = 0u64;
+            let mut cancelled = 0u64;
+            let mut last = json!("budget");
+            // give up after `idle_ms` without a new stream (other acceptors may have taken them all)
+            let idle = Duration::from_millis(u(&step, "idle_ms", 1500));
+            let mut last_progress = tokio::time::Instant::now();
+            while got < n && tokio::time::Instant::now() < deadline {
+                if tokio::time::Instant::now() - last_progress > idle {
+                    last = json!("idle");
+                    break;
+                }
+                let slice = match cancel {
+                    Some(c) => Duration::from_millis(c),
+                    None => (deadline - tokio::time::Instant::now()).min(idle),
+                };
+                if op == "accept_n_uni" {
+                    match timeout(slice, conn.accept_uni()).await {
+                        Ok(Ok(mut r)) => {
+                            got += 1;
+                            last_progress = tokio::time::Instant::now();
+                            let mut b = [0u8; 8];
+                            let first = match timeout(Duration::from_millis(3000), r.read_exact(&mut b)).await {
+                                Ok(Ok(())) => jbytes(&b),
+                                _ => json!([]),
+                            };
+                            log.emit(&who, "accepted", fields! {"kind" => "uni", "caller" => tag.clone(),
+                                "id" => v62(r.id().into_u64()), "first" => first});
+                        }
+                        Ok(Err(e)) => {
+                            last = conn_err(&e);
+                            break;
+                        }
+                        Err(_) => cancelled += 1,
+                    }
+                } else {
+                    match timeout(slice, conn.accept_bi()).await {
+                        Ok(Ok((_sx, mut r))) => {
+                            got += 1;
+                            last_progress = tokio::time::Instant::now();
+                            let mut b = [0u8; 8];
+                            let first = match timeout(Duration::from_millis(3000), r.read_exact(&mut b)).await {
+                                Ok(Ok(())) => jbytes(&b),
+                                _ => json!([]),
+                            };
+                            log.emit(&who, "accepted", fields! {"kind" => "bi", "caller" => tag.clone(),
+                                "id" => v62(r.id().into_u64()), "first" => first});
+                        }
+                        Ok(Err(e)) => {
+                            last = conn_err(&e);
+                            break;
+                        }
+                        Err(_) => cancelled += 1,
+                    }
+                }
+                if delay > 0 {
+                    tokio::time::sleep(Duration::from_millis(delay)).await;
+                }
+            }
+            m.insert("res".into(), json!("done"));
+            m.insert("got".into(), json!(got));
+            m.insert("cancelled".into(), json!(cancelled));
+            m.insert("last".into(), last);
+        }
+        "open_n_uni" | "open_n_bi" => {
+            // open `n` streams, write the stream id (8 bytes) as payload, finish
+            let n = u(&step, "n", 1);
+            let mut okc = 0u64;
+            for _ in 0..n {
+                if op == "open_n_uni" {
+                    let Ok(Ok(opening)) = timeout(dl, conn.open_uni()).await else { break };
+                    let Ok(Ok(mut sx)) = timeout(dl, opening).await else { break };
+                    let id = sx.id().into_u64();
+                    let _ = sx.write_all(&id.to_be_bytes()).await;
+                    log.emit(&who, "opened", fields! {"kind" => "uni", "id" => v62(id)});
+                    let _ = timeout(Duration::from_millis(50), sx.finish()).await;
+                    okc += 1;
+                } else {
+                    let Ok(Ok(opening)) = timeout(dl, conn.open_bi()).await else { break };
+                    let Ok(Ok((mut sx, _r))) = timeout(dl, opening).await else { break };
+                    let id = sx.id().into_u64();
+                    let _ = sx.write_all(&id.to_be_bytes()).await;
+                    log.emit(&who, "opened", fields! {"kind" => "bi", "id" => v62(id)});
+                    let _ = timeout(Duration::from_millis(50), sx.finish()).await;
+                    okc += 1;
+                }
+            }
+            m.insert("res".into(), json!("done"));
+            m.insert("opened".into(), json!(okc));
+        }
         _ => {
             m.insert("res".into(), json!("badop"));
         }
@@ -1374,6 +1471,47 @@ async fn run_step(w: &mut World, step: &Value) {
             }
             w.log.emit("peer", "peer_open", m);
         }
+        ("peer", "open_n") => {
+            // background: open `n` streams of `kind`, each preamble ++ its stream id (8 bytes), finished
+            let Some(c) = w.raw.clone() else { return };
+            let n = u(step, "n", 1);
+            let kind = s(step, "kind").to_string();
+            let sid = big(step, "sid", 0);
+            let log = w.log.clone();
+            let ms = u(step, "ms", 20000);
+            let h = tokio::spawn(async move {
+                let mut okc = 0u64;
+                let dl = Duration::from_millis(ms);
+                for _ in 0..n {
+                    if kind == "uni" {
+                        let Ok(Ok(mut sx)) = timeout(dl, c.open_uni()).await else { break };
+                        let id = u64::from(quinn::VarInt::from(sx.id()));
+                        let mut b = gen::enc_varint(0x54);
+                        b.extend(gen::enc_varint(sid));
+                        b.extend_from_slice(&id.to_be_bytes());
+                        let _ = sx.write_all(&b).await;
+                        let _ = sx.finish();
+                        log.emit("peer", "opened", fields! {"kind" => "uni", "id" => v62(id)});
+                        okc += 1;
+                        // keep the stream object alive until the data has been taken
+                        tokio::spawn(async move { let _ = sx.stopped().await; });
+                    } else {
+                        let Ok(Ok((mut sx, r))) = timeout(dl, c.open_bi()).await else { break };
+                        let id = u64::from(quinn::VarInt::from(sx.id()));
+                        let mut b = gen::enc_varint(0x41);
+                        b.extend(gen::enc_varint(sid));
+                        b.extend_from_slice(&id.to_be_bytes());
+                        let _ = sx.write_all(&b).await;
+                        let _ = sx.finish();
+                        log.emit("peer", "opened", fields! {"kind" => "bi", "id" => v62(id)});
+                        okc += 1;
+                        tokio::spawn(async move { let _ = sx.stopped().await; drop(r); });
+                    }
+                }
+                log.emit("peer", "op_done", fields! {"op" => "open_n", "res" => "done", "opened" => okc});
+            });
+            w.tasks.insert(key("peer", &tag), h);
+        }
         ("peer", "wait_handle") => {
             let k = key("peer", &tag);
             let deadline = tokio::time::Instant::now() + Duration::from_millis(u(step, "ms", 3000));
@@ -1522,7 +1660,7 @@ async fn run_step(w: &mut World, step: &Value) {
             }
         }
         (_, "accept_uni") | (_, "accept_bi") | (_, "recv_dgram") | (_, "closed") | (_, "open_uni")
-        | (_, "open_bi") => {
+        | (_, "open_bi") | (_, "accept_n_uni") | (_, "accept_n_bi") | (_, "open_n_uni") | (_, "open_n_bi") => {
             let Some(c) = conn_of(w, &who).cloned() else {
                 w.log.emit(&who, "op_done", fields! {"op" => a, "tag" => tag, "res" => "noconn"});
                 return;
